@@ -1599,15 +1599,10 @@ func (t *treasure) SetContentVoid(guardID guard.ID) {
 		return
 	}
 
+	// replace whatever typed content was stored: a void treasure carries no value
 	t.contentChanged = true
-	if t.treasure.Content == nil {
-		t.treasure.Content = &Content{
-			Void: true,
-		}
-	}
-
-	if t.treasure.Content.Void != false {
-		t.treasure.Content.Void = true
+	t.treasure.Content = &Content{
+		Void: true,
 	}
 
 }
